@@ -1,1 +1,281 @@
-"""placeholder"""
+"""E-domain: which objects reachable from a parameter may a function mutate.
+
+Effect = (parameter name, kind, key): kind in
+  'attr'       writes node attribute `key` of the graph passed as that parameter
+  'edgeattr'   writes edge data
+  'structure'  adds / removes / renames nodes or edges, or changes graph-level data
+  'container'  mutates a list / dict / set parameter
+"""
+from __future__ import annotations
+
+import ast
+from typing import Optional
+
+from ..cfg import cfg_of
+from ..model import AnalysisError, FuncInfo, norm, short
+from ..report import Finding, RuleResult
+from . import rule
+from .common import closure, entry, kwarg, own_walk, params_of, sites, try_const
+from .structural import MUTATORS
+
+GRAPH_STRUCT_METHODS = {"add_node", "add_nodes_from", "add_edge", "add_edges_from", "add_weighted_edges_from", "remove_node", "remove_nodes_from",
+                        "remove_edge", "remove_edges_from", "clear", "clear_edges", "update"}
+NX_MUTATING = {"networkx.set_node_attributes": "attr", "networkx.set_edge_attributes": "edgeattr"}
+FRESH_EXT = {"networkx.relabel_nodes", "networkx.Graph", "networkx.convert_node_labels_to_integers", "igraph.Graph.from_networkx"}
+
+
+class Effects:
+    def __init__(self, ctx):
+        self.ctx = ctx
+        self.summ: dict[str, dict] = {}
+        self.stack: set[str] = set()
+
+    def summary(self, fi: FuncInfo) -> dict:
+        """{'effects': set((param, kind, key, site text, lineno, func fq)), 'returns_param': set(param names)}"""
+        if fi.fq in self.summ:
+            return self.summ[fi.fq]
+        if fi.fq in self.stack:
+            return {"effects": set(), "returns_param": set()}
+        self.stack.add(fi.fq)
+        try:
+            s = self._analyse(fi)
+        finally:
+            self.stack.discard(fi.fq)
+        self.summ[fi.fq] = s
+        return s
+
+    def _analyse(self, fi: FuncInfo) -> dict:
+        ctx = self.ctx
+        fn = fi.node
+        params = params_of(fn)
+        # alias[name] = set of params the name may refer to (the object itself), or params whose *attribute dicts* it refers to
+        alias: dict[str, set] = {p: {p} for p in params}
+        attrdict_of: dict[str, set] = {}       # name -> params whose node-attribute dicts it may be
+        nodeview_of: dict[str, set] = {}
+        effects: set = set()
+
+        def obj_params(e: ast.expr) -> set:
+            if isinstance(e, ast.Name):
+                return set(alias.get(e.id, ()))
+            if isinstance(e, ast.NamedExpr):
+                return obj_params(e.value)
+            if isinstance(e, ast.IfExp):
+                return obj_params(e.body) | obj_params(e.orelse)
+            if isinstance(e, ast.Call):
+                cs = ctx.cg.resolve_call(fi, e, ctx.cg.local_types(fi), set(params))
+                if cs.kind == "tucan":
+                    s = self.summary(cs.target)
+                    out = set()
+                    tp = params_of(cs.target.node)
+                    for p, a in zip(tp, e.args):
+                        if p in s["returns_param"]:
+                            out |= obj_params(a)
+                    return out
+                if cs.kind == "ext" and cs.target == "networkx.relabel_nodes":
+                    c = kwarg(e, "copy")
+                    if c is not None and not (isinstance(c, ast.Constant) and c.value is True):
+                        return obj_params(e.args[0]) if e.args else set()
+                return set()
+            return set()
+
+        def attr_params(e: ast.expr) -> set:
+            """params whose node attribute dictionaries `e` may denote:  m.nodes[a] / attrs from m.nodes(data=True)"""
+            if isinstance(e, ast.Name):
+                return set(attrdict_of.get(e.id, ()))
+            if isinstance(e, ast.Subscript):
+                v = e.value
+                if isinstance(v, ast.Attribute) and v.attr in ("nodes", "_node"):
+                    return obj_params(v.value)
+                if isinstance(v, ast.Name) and v.id in nodeview_of:
+                    return set(nodeview_of[v.id])
+            return set()
+
+        def add(ps, kind, key, node):
+            for p in ps:
+                effects.add((p, kind, key, short(node, 90), getattr(node, "lineno", None), fi.fq))
+
+        for _round in range(3):
+            for n in own_walk(fn):
+                # aliases
+                if isinstance(n, (ast.Assign, ast.AnnAssign, ast.NamedExpr)):
+                    tg = n.targets[0] if isinstance(n, ast.Assign) else n.target
+                    val = n.value
+                    if val is None:
+                        continue
+                    if isinstance(tg, ast.Name):
+                        ps = obj_params(val)
+                        if ps:
+                            alias.setdefault(tg.id, set()).update(ps)
+                        ap = attr_params(val)
+                        if ap:
+                            attrdict_of.setdefault(tg.id, set()).update(ap)
+                        if isinstance(val, ast.Attribute) and val.attr == "nodes":
+                            nodeview_of.setdefault(tg.id, set()).update(obj_params(val.value))
+                if isinstance(n, (ast.For, ast.comprehension)):
+                    it = n.iter
+                    base = it
+                    while isinstance(base, ast.Call) and isinstance(base.func, ast.Name) and base.func.id in ("sorted", "list", "tuple", "reversed", "enumerate") and base.args:
+                        base = base.args[0]
+                    # for label, attrs in m.nodes(data=True) / m.nodes.items() / m.nodes.data()
+                    ps = set()
+                    if isinstance(base, ast.Call) and isinstance(base.func, ast.Attribute):
+                        f = base.func
+                        d = kwarg(base, "data") or (base.args[0] if base.args else None)
+                        if f.attr == "nodes" and isinstance(d, ast.Constant) and d.value is True:
+                            ps = obj_params(f.value)
+                        elif f.attr in ("items", "data") and isinstance(f.value, ast.Attribute) and f.value.attr == "nodes" and (f.attr == "items" or not base.args or
+                                                                                                                                  (isinstance(base.args[0], ast.Constant) and base.args[0].value is True)):
+                            ps = obj_params(f.value.value)
+                    if ps and isinstance(n.target, ast.Tuple) and len(n.target.elts) == 2 and isinstance(n.target.elts[1], ast.Name):
+                        attrdict_of.setdefault(n.target.elts[1].id, set()).update(ps)
+            # effects
+            for n in own_walk(fn):
+                if isinstance(n, ast.Call):
+                    cs = ctx.cg.resolve_call(fi, n, ctx.cg.local_types(fi), set(params))
+                    if cs.kind == "ext" and cs.target in NX_MUTATING and n.args:
+                        key = None
+                        karg = n.args[2] if len(n.args) > 2 else kwarg(n, "name")
+                        if karg is not None:
+                            key = try_const(ctx, fi, karg, default="?")
+                        else:
+                            key = "*"
+                        add(obj_params(n.args[0]), NX_MUTATING[cs.target], key, n)
+                    elif cs.kind == "ext" and cs.target == "networkx.relabel_nodes" and n.args:
+                        c = kwarg(n, "copy") or (n.args[2] if len(n.args) > 2 else None)
+                        if c is not None and not (isinstance(c, ast.Constant) and c.value is True):
+                            add(obj_params(n.args[0]), "structure", "relabel in place", n)
+                    elif cs.kind == "ext" and cs.target == "random.shuffle" and n.args:
+                        add(obj_params(n.args[0]), "container", "shuffle", n)
+                    elif cs.kind == "tucan":
+                        s = self.summary(cs.target)
+                        tp = params_of(cs.target.node)
+                        off = 1 if cs.target.cls is not None and isinstance(n.func, ast.Attribute) else 0
+                        for (p, kind, key, text, line, where) in s["effects"]:
+                            if p in tp:
+                                i = tp.index(p) - off
+                                if 0 <= i < len(n.args):
+                                    for q in obj_params(n.args[i]):
+                                        effects.add((q, kind, key, text, line, where))
+                                    for q in attr_params(n.args[i]):
+                                        effects.add((q, "attr", key if kind == "container" else key, text, line, where))
+                    elif isinstance(n.func, ast.Attribute):
+                        recv = n.func.value
+                        m = n.func.attr
+                        if m in GRAPH_STRUCT_METHODS and obj_params(recv) and ctx.cg.local_types(fi).type_of(recv) in ("networkx.Graph", None) and _looks_like_graph(fi, recv, alias):
+                            add(obj_params(recv), "structure", m, n)
+                        elif m in MUTATORS and obj_params(recv) and not _looks_like_graph(fi, recv, alias):
+                            add(obj_params(recv), "container", m, n)
+                        if m in MUTATORS | {"update"} and attr_params(recv):
+                            key = try_const(ctx, fi, n.args[0], default="?") if n.args and m in ("pop", "setdefault") else "*"
+                            add(attr_params(recv), "attr", key, n)
+                tgts = []
+                if isinstance(n, ast.Assign):
+                    tgts = n.targets
+                elif isinstance(n, (ast.AugAssign, ast.AnnAssign)):
+                    tgts = [n.target]
+                elif isinstance(n, ast.Delete):
+                    tgts = n.targets
+                for t in tgts:
+                    if isinstance(t, ast.Subscript):
+                        # m.nodes[a][K] = v   /  attrs[K] = v
+                        ap = attr_params(t.value)
+                        if ap:
+                            add(ap, "attr", try_const(ctx, fi, t.slice, default="?"), n)
+                            continue
+                        # m[u][v][K] = .. / m.edges[u, v][K] = ..
+                        inner = t.value
+                        if isinstance(inner, ast.Subscript):
+                            root = inner
+                            while isinstance(root, ast.Subscript):
+                                root = root.value
+                            if isinstance(root, ast.Attribute) and root.attr in ("edges", "adj", "_adj"):
+                                add(obj_params(root.value), "edgeattr", try_const(ctx, fi, t.slice, default="?"), n)
+                                continue
+                            if isinstance(root, ast.Name) and _looks_like_graph(fi, root, alias):
+                                add(obj_params(root), "edgeattr", try_const(ctx, fi, t.slice, default="?"), n)
+                                continue
+                        if isinstance(inner, ast.Attribute) and inner.attr == "graph":
+                            add(obj_params(inner.value), "structure", "graph-level data", n)
+                            continue
+                        if isinstance(inner, ast.Name) and obj_params(inner):
+                            add(obj_params(inner), "container", "item store", n)
+                    elif isinstance(t, ast.Attribute) and obj_params(t.value):
+                        add(obj_params(t.value), "structure", f"attribute .{t.attr}", n)
+                if isinstance(n, ast.AugAssign) and isinstance(n.target, ast.Name):
+                    if attr_params(n.target) and isinstance(n.op, ast.BitOr):
+                        add(attr_params(n.target), "attr", "*", n)
+                    elif obj_params(n.target) and isinstance(n.op, (ast.BitOr, ast.Add)) and not _looks_like_graph(fi, n.target, alias):
+                        add(obj_params(n.target), "container", "in-place operator", n)
+        returns_param = set()
+        for n in own_walk(fn):
+            if isinstance(n, ast.Return) and n.value is not None:
+                returns_param |= obj_params(n.value)
+        return {"effects": effects, "returns_param": returns_param}
+
+
+def _looks_like_graph(fi: FuncInfo, e: ast.expr, alias) -> bool:
+    """the expression denotes a parameter annotated as a graph"""
+    if isinstance(e, ast.Name):
+        for p in alias.get(e.id, ()):
+            for a in fi.node.args.args:
+                if a.arg == p and a.annotation is not None and "Graph" in norm(a.annotation):
+                    return True
+    return False
+
+
+@rule("R-EFFECT")
+def r_effect(ctx) -> RuleResult:
+    res = RuleResult("R-EFFECT", "canonicalize_molecule and permute_molecule mutate nothing reachable from their argument; serialize_molecule writes at most the scratch node attribute `explored`, which is initialised before it is read")
+    E = Effects(ctx)
+    explored = ctx.repo.const("tucan.graph_attributes", "EXPLORED")
+    allowed = {"canonicalize": set(), "permute": set(), "serialize": {("attr", explored)}, "write": set()}
+    for key, allow in allowed.items():
+        fi = entry(ctx, key)
+        s = E.summary(fi)
+        first = params_of(fi.node)[0]
+        effs = [e for e in s["effects"] if e[0] == first]
+        bad = [e for e in effs if (e[1], e[2]) not in allow]
+        res.inst(fi.fq, f"effects on `{first}`: {sorted({(e[1], e[2]) for e in effs}) or 'none'}", "fail" if bad else "ok",
+                 detail=f"allowed: {sorted(allow) or 'none'}")
+        seen = set()
+        for p, kind, k, text, line, where in sorted(bad, key=lambda e: (e[5], e[4] or 0)):
+            if (where, text) in seen:
+                continue
+            seen.add((where, text))
+            wf = ctx.cg.funcs[where]
+            what = {"attr": f"writes node attribute `{k}` of", "edgeattr": "writes bond data of", "structure": f"changes the structure ({k}) of",
+                    "container": f"mutates ({k})"}[kind]
+            res.fail(Finding("R-EFFECT", wf.module.rel, wf.qualname, text,
+                             f"{fi.name} {what} the object passed in by the caller" + (" (only the scratch attribute `explored` may be written)" if key == "serialize" else ""),
+                             line=line, path=[f"{fi.name}({first})", where.split('.', 1)[1], text]))
+        if s["returns_param"] and key in ("canonicalize", "permute"):
+            res.inst(fi.fq, "result is a new object", "fail")
+            res.fail(Finding("R-EFFECT", fi.module.rel, fi.qualname, "return", f"{fi.name} may return its argument itself instead of a relabelled copy", line=fi.node.lineno))
+    # explored: initialised before read, in the same call
+    ser_clo = closure(ctx, "serialize")
+    n_reads = 0
+    for fi in ser_clo:
+        fn = fi.node
+        cfg = cfg_of(fn)
+        inits, reads = [], []
+        for n in own_walk(fn):
+            if isinstance(n, ast.Call):
+                cs = ctx.cg.resolve_call(fi, n, ctx.cg.local_types(fi), set(params_of(fn)))
+                if cs.kind == "ext" and cs.target == "networkx.set_node_attributes" and len(n.args) >= 3 and try_const(ctx, fi, n.args[2]) == explored:
+                    inits.append(n)
+                if isinstance(n.func, ast.Attribute) and n.func.attr in ("nodes", "data"):
+                    d = kwarg(n, "data") or (n.args[0] if n.args else None)
+                    if d is not None and try_const(ctx, fi, d) == explored:
+                        reads.append(n)
+            if isinstance(n, ast.Subscript) and isinstance(n.ctx, ast.Load) and try_const(ctx, fi, n.slice) == explored:
+                reads.append(n)
+        for r in reads:
+            n_reads += 1
+            rn = cfg.stmt_node_containing(r)
+            ok = any(cfg.stmt_node_containing(i) is not None and rn is not None and cfg.dominates(cfg.stmt_node_containing(i), rn) and cfg.stmt_node_containing(i) != rn for i in inits)
+            res.inst(fi.fq, f"read `{short(r)}` dominated by the initialisation of `{explored}`", "ok" if ok else "fail")
+            if not ok:
+                res.fail(Finding("R-EFFECT", fi.module.rel, fi.qualname, norm(r), f"`{explored}` is read before it is initialised in this call: a value left over from an earlier serialisation changes the result", line=r.lineno))
+    res.counts = {"explored_reads": n_reads, "functions_summarised": len(E.summ)}
+    res.trusted = ["Graph.copy(), relabel_nodes(copy=True), nx.Graph(), convert_node_labels_to_integers return new graphs with copied attribute dicts"]
+    return res
